@@ -211,7 +211,12 @@ class Summariser:
             q = self._fork(p)
             v = _split_walrus(s.value, q.env)
             tgts = s.targets if isinstance(s, ast.Assign) else [s.target]
-            if not norm.is_pure(s.value, _PURE) and all(isinstance(t, (ast.Name, ast.Tuple, ast.List)) for t in tgts):
+            acc_init = len(tgts) == 1 and isinstance(tgts[0], ast.Name) and tgts[0].id in self.mutated and not _is_path(v) and not isinstance(v, ast.List) and not norm.is_scalar(v)
+            if acc_init:
+                # the accumulator keeps its name: show where it starts
+                q.effects.append(ast.copy_location(ast.Assign(targets=[ast.Name(id=tgts[0].id, ctx=ast.Store())], value=copy.deepcopy(v)), s))
+                _freeze(q.env, s)
+            elif not norm.is_pure(s.value, _PURE) and all(isinstance(t, (ast.Name, ast.Tuple, ast.List)) for t in tgts):
                 q.effects.append(ast.copy_location(ast.Expr(copy.deepcopy(v)), s))
                 _freeze(q.env, s)
             for t in tgts:
@@ -230,6 +235,12 @@ class Summariser:
                 eff = ast.copy_location(ast.AugAssign(target=ref, op=s.op, value=v), s)
                 q.effects.append(eff)
                 _freeze(q.env, s, inplace=u(ref))
+                nxt(q)
+                return
+            if isinstance(s.target, ast.Name) and s.target.id in self.mutated and s.target.id not in q.env:
+                # an accumulator that keeps its name: an in-place effect only
+                q.effects.append(ast.copy_location(ast.AugAssign(target=ast.Name(id=s.target.id, ctx=ast.Store()), op=s.op, value=v), s))
+                _freeze(q.env, s)
                 nxt(q)
                 return
             if isinstance(s.target, ast.Name):
